@@ -23,6 +23,7 @@ type crashJob struct {
 	chain     int         // further crash/recover cycles inside the continuation
 	seed      uint64
 	replay    interface{}
+	sigMap    func(j *crashJob, sig string) string
 	classSig  string // when set, every failure of this job is reported under this one signature
 	ignore    string // table whose CREATE was in flight at the crash: not judged
 	noSecond  bool // skip the second recovery (C04 judges start-up and contents only)
@@ -282,7 +283,17 @@ func (j *crashJob) sig(s string) string {
 	if j.classSig != "" {
 		return j.classSig
 	}
+	if j.sigMap != nil {
+		return j.sigMap(j, s)
+	}
 	return s
+}
+
+func verifyCrashJobsPrefixed(c *core.Ctx, prop, drv, cwd string, jobs []*crashJob, f func(j *crashJob, sig string) string) {
+	for _, j := range jobs {
+		j.sigMap = f
+	}
+	verifyCrashJobs(c, prop, drv, cwd, jobs)
 }
 
 func imgDir(caseDir string, i int, tag string) string {
